@@ -10,6 +10,18 @@ def plan(tier):
 def make(rng, name):
     U = name.upper()
     by_ref = rng.random() < 0.5
+    idx = int(name[1:]) if name[1:].isdigit() else 0
+    if idx % 2 == 1:
+        # both crates whose library is called `helper`: the workspace member and the one outside the workspace
+        items = [
+            "#[pavex::request_scoped(id = \"%s_GREET\")]\npub fn greet() -> helper::Greeting { let id = fresh(); log(format!(\"ctor %s.greet {} : \", id)); helper::Greeting { id } }" % (U, name),
+            "#[pavex::request_scoped(id = \"%s_SALT\")]\npub fn salt() -> helper_ext::Salt { helper_ext::Salt { id: 7 } }" % U,
+            "#[pavex::get(path = \"/%s/r0\", id = \"%s_H0\")]\npub fn h0(g: %shelper::Greeting, s: &helper_ext::Salt) -> Response { log(format!(\"handler %s.h0 : {}\", g.id)); Response::ok() }" % (name, U, "&" if by_ref else "", name),
+        ]
+        bp = [["raw", "{bp}.constructor(%s_GREET);" % U, {"ctor": "greet"}], ["raw", "{bp}.constructor(%s_SALT);" % U, {"ctor": "salt"}],
+              ["raw", "{bp}.route(%s_H0);" % U, {"route": "h0"}]]
+        return {"name": name, "klass": "deps", "types": [], "ctors": [], "handlers": [], "mws": [], "observers": [],
+                "bp": bp, "usage": {}, "extra_items": items, "two_helpers": True}
     items = [
         "#[pavex::request_scoped(id = \"%s_GREET\")]\npub fn greet() -> helper::Greeting { let id = fresh(); log(format!(\"ctor %s.greet {} : \", id)); helper::Greeting { id } }" % (U, name),
         "#[pavex::get(path = \"/%s/r0\", id = \"%s_H0\")]\npub fn h0(g: %shelper::Greeting) -> Response { log(format!(\"handler %s.h0 : {}\", g.id)); Response::ok() }" % (name, U, "&" if by_ref else "", name),
